@@ -1,6 +1,7 @@
 package litefs
 
 import (
+	"bytes"
 	"context"
 	"errors"
 	"io"
@@ -305,4 +306,35 @@ func VerifC13HaltAfterWriter() {
 	db.ReleaseHaltLock(ctx, id)
 	rt.Check(verifAllUnlocked(db), "release frees everything")
 	rt.Reach("c13.halt.after.writer")
+}
+
+// VerifC13ExpiredHaltStream: a replica still believes it holds the remote halt
+// lock (it expired on the primary, or the release response was lost); the
+// primary writes again and its next transaction arrives on the stream. The
+// former holder must drop the stale lock and follow the primary: the call
+// returns, the transaction is applied, and the node is no longer writable.
+func VerifC13ExpiredHaltStream() {
+	ctx := context.Background()
+	w, img0 := verifC01Replica(1, rt.Choose("wal.mode", 2) == 1)
+	db := w.db
+	pos0 := db.Pos()
+	db.remoteHaltLock.Store(&HaltLock{ID: 5, Pos: pos0})
+	rt.Check(db.Writeable(), "harness: holder of the remote halt lock may write")
+	p := rt.Bytes("primary.tx", verifP)
+	verifHeaderPage(p, 1, db.Mode() == DBModeWAL)
+	want := [][]byte{p}
+	hdr := ltx.Header{PageSize: verifP, Commit: 1, MinTXID: pos0.TXID + 1, MaxTXID: pos0.TXID + 1, PreApplyChecksum: pos0.PostApplyChecksum, NodeID: 99}
+	rt.Assume(w.store.ID() != 99)
+	file := verifEncodeLTX(hdr, []uint32{1}, want, verifSpecChecksum(want))
+	var err error
+	rt.NoHang(2000, func() {
+		err = w.store.processLTXStreamFrame(ctx, &LTXStreamFrame{Name: "db"}, bytes.NewReader(file))
+	})
+	rt.Check(err == nil, "the primary's transaction is applied by the former halt-lock holder")
+	rt.Check(db.RemoteHaltLock() == nil && !db.Writeable(), "the stale halt lock is dropped: the former holder can no longer write or publish")
+	rt.Check(db.Pos() == ltx.Pos{TXID: pos0.TXID + 1, PostApplyChecksum: verifSpecChecksum(want)}, "C01: the replica reaches the primary's position")
+	verifC01CheckImage(w, want, "C01: image is the primary's")
+	rt.Check(verifAllUnlocked(db), "no lock is left behind")
+	_ = img0
+	rt.Reach("c13.expired.halt.stream")
 }
